@@ -779,7 +779,58 @@ func (env *specEnv) evalMethod(x *EMethod) SVal {
 		specFail("pure method %s must have exactly one result", x.Name)
 	}
 	rt := sig.Results().At(0).Type()
-	return SVal{T: c.pureMethodApp(fn, args, rt), GoT: rt}
+	app := c.pureMethodApp(fn, args, rt)
+	// what the extern contract promises about applications of this function: stated once, as an
+	// axiom over all arguments with the application as trigger (the executor assumes it per call in
+	// the code; an application that only a specification mentions needs it as well)
+	if ct := c.eng.contracts[fn.FullName()]; ct != nil && ct.Pure && len(ct.Ensures) > 0 && len(ct.Params) == len(args) {
+		key := "pure-ensures " + fn.FullName()
+		if !c.declSeen[key] {
+			c.declSeen[key] = true
+			sub := &specEnv{f: env.f, c: c, heap: env.heap, old: env.old, vars: map[string]SVal{}, pkg: env.pkg}
+			var binders []string
+			var bargs []Term
+			for i, n := range ct.Params {
+				var gt types.Type
+				if sig.Recv() != nil {
+					if i == 0 {
+						gt = sig.Recv().Type()
+					} else if i-1 < sig.Params().Len() {
+						gt = sig.Params().At(i - 1).Type()
+					}
+				} else if i < sig.Params().Len() {
+					gt = sig.Params().At(i).Type()
+				}
+				bn := quote(fmt.Sprintf("q %s ax%d", n, i))
+				bt := Term{bn, args[i].Sort}
+				binders = append(binders, fmt.Sprintf("(%s %s)", bn, args[i].Sort))
+				bargs = append(bargs, bt)
+				sub.vars[n] = SVal{T: bt, GoT: gt}
+			}
+			bapp := c.pureMethodApp(fn, bargs, rt)
+			sub.vars["r"] = SVal{T: bapp, GoT: rt}
+			sub.vars["r0"] = sub.vars["r"]
+			var posts []string
+			ok := true
+			func() {
+				defer func() {
+					if r := recover(); r != nil {
+						ok = false
+					}
+				}()
+				for _, en := range ct.Ensures {
+					posts = append(posts, sub.eval(en.E).T.S)
+				}
+			}()
+			if ok && len(posts) > 0 {
+				// kept apart from the declarations: only the instantiation stage uses it (ground instances
+				// where an application occurs); as a quantified axiom over array-sorted arguments it made
+				// the solvers answer `unknown` on queries that do not need it
+				c.instAxioms = append(c.instAxioms, fmt.Sprintf("(assert (forall (%s) (! (and %s true) :pattern (%s))))", strings.Join(binders, " "), strings.Join(posts, " "), bapp.S))
+			}
+		}
+	}
+	return SVal{T: app, GoT: rt}
 }
 
 // pureCallParts resolves a spec-level call of a pure method (x.M(args)) or of a pure function of
